@@ -60,7 +60,7 @@ impl<T: RealNumber, M: Matrix<T>> InteriorPointOptimizer<T, M> {
 
         let y = M::from_row_vector(y.sub_scalar(y.mean())).transpose();
 
-        let mut max_ls_iter = 100;
+        let max_ls_iter = 100;
         let mut pitr = 0;
         let mut w = M::zeros(p, 1);
         let mut neww = w.clone();
@@ -162,7 +162,7 @@ impl<T: RealNumber, M: Matrix<T>> InteriorPointOptimizer<T, M> {
             s = T::one();
             let gdx = grad.dot(&dxu);
 
-            let lsiter = 0;
+            let mut lsiter = 0;
             while lsiter < max_ls_iter {
                 for i in 0..p {
                     neww.set(i, 0, w.get(i, 0) + s * dx.get(i, 0));
@@ -183,7 +183,7 @@ impl<T: RealNumber, M: Matrix<T>> InteriorPointOptimizer<T, M> {
                     }
                 }
                 s = beta * s;
-                max_ls_iter += 1;
+                lsiter += 1;
             }
 
             if lsiter == max_ls_iter {
